@@ -509,7 +509,37 @@ fn calc_hmac(input: &[u8], key: &[u8]) -> [u8; SHA256_DIGEST_LENGTH] {
     output
 }
 
+#[cfg(rml_verif)]
+thread_local! {
+    static VERIF_RANDOM_SOURCE: std::cell::RefCell<Option<std::collections::VecDeque<u8>>> =
+        std::cell::RefCell::new(None);
+}
+
+/// Verification hook: when a source is installed, handshake packets take their "random" bytes
+/// from it (zeros once it is exhausted) instead of the thread rng.
+#[cfg(rml_verif)]
+pub fn verif_set_random_source(bytes: Option<Vec<u8>>) {
+    VERIF_RANDOM_SOURCE.with(|source| *source.borrow_mut() = bytes.map(|x| x.into()));
+}
+
 fn fill_with_random_data(buffer: &mut [u8]) {
+    #[cfg(rml_verif)]
+    {
+        let used_hook = VERIF_RANDOM_SOURCE.with(|source| match *source.borrow_mut() {
+            None => false,
+            Some(ref mut queue) => {
+                for x in 0..buffer.len() {
+                    buffer[x] = queue.pop_front().unwrap_or(0);
+                }
+                true
+            }
+        });
+
+        if used_hook {
+            return;
+        }
+    }
+
     let mut rng = rand::thread_rng();
     for x in 0..buffer.len() {
         let value = rng.gen();
